@@ -5,8 +5,8 @@ from vf import gen_ir, ops
 from vf.core import Prop, Result
 from vf.props.c01 import build_universe, case_strategy
 
-NAMES = ["a", "A", "b", "B", "a_1"]
-VALUES = {".NAME": ["a", "A", "b", "B", "a_1"],
+NAMES = ["a", "A", "b", "B", "a_1", ""]
+VALUES = {".NAME": ["a", "A", "b", "B", "a_1", ""],
           "EDIF.identifier": ["a", "A", "b", "B", "aB", "Ab", "AB", "b_", "&1", "c"]}
 KEYS = [".NAME", "EDIF.identifier", ".NAME", "EDIF.identifier", "K"]
 
